@@ -293,8 +293,87 @@ def make_c04(sh):
     return make
 
 
-FAMILIES = {'c04': make_c04, 'flat': make_flat, 'params': make_params, 'ghosts': make_ghosts, 'child': make_child, 'parent': make_parent, 'enum': make_enum}
-SHARDERS = {'c04': c04_shards, 'flat': flat_shards, 'params': params_shards, 'ghosts': ghosts_shards, 'child': child_shards, 'parent': parent_shards, 'enum': enum_shards}
+# ------------------------------------------------------------------------------------------ misuse (C15 / C19): rule violations injected into a valid base
+BASIC12 = [BASIC_NAME[(k, f)] for f in (False, True) for k in KINDS]
+
+
+class Opt:
+    """an instruction that is present iff a forked boolean choice says so"""
+
+    def __init__(self, ch, instr):
+        self.ch, self.instr = ch, instr
+
+    def inner(self, c):
+        return self.instr if c else None
+
+
+def misuse_shards(tier, seed):
+    out = []
+    for shape in ('named', 'tuple'):
+        for t2ty in ('X', 'Y'):
+            for variant in ('A', 'B', 'C'):
+                if tier == 'quick' and (['A', 'B', 'C'].index(variant) + (shape == 'tuple') + (t2ty == 'Y') + seed) % 2:
+                    continue
+                out.append({'family': 'misuse', 'item': 'struct', 'shape': shape, 't2ty': t2ty, 'variant': variant})
+    for variant in ('A', 'B'):
+        out.append({'family': 'misuse', 'item': 'enum', 'shape': 'enum', 't2ty': 'Y', 'variant': variant})
+    return out
+
+
+def make_misuse(sh):
+    item, shape, t2ty, variant = sh['item'], sh['shape'], sh['t2ty'], sh['variant']
+
+    def make():
+        nm = (lambda s: s) if shape == 'named' else (lambda s: None)
+        if item == 'struct' and variant == 'A':
+            # trait-level rules: duplicates, error types; dedication to unknown type on member instructions; ghost without default
+            t1 = TraitInstr(Ch('t1n', BASIC12), 'X', err=Ch('t1e', [None, 'Er']), hint=Ch('t1h', ['Unspecified', 'Struct']), update=Ch('t1u', [None, '__u(@)']), tag='t1')
+            t2 = TraitInstr(Ch('t2n', ['from_owned', 'owned_into', 'try_from_owned', 'ref_into_existing']), t2ty, err=Ch('t2e', [None, 'Er']), tag='t2')
+            m0 = Member(nm('a'), instrs=[MapInstr(Ch('m0n', ['map', 'from_owned', 'owned_into', 'try_map', 'ref_into_existing']), ded=Ch('m0d', [None, 'X', 'Z']), member=Ch('m0m', [None, ('n', 'zz')]), action=Ch('m0a', [None, '__e(~)']), tag='e')])
+            m1 = Member(nm('b'), instrs=[GhostInstr(Ch('g1n', ['ghost', 'ghost_owned']), ded=Ch('g1d', [None, 'X', 'Z']), action=Ch('g1a', [None, '__g(@)']), tag='g')])
+            return Spec('struct', shape=shape, traits=[t1, t2], members=[m0, m1], tys=('X', 'Y', 'Z'))
+        if item == 'struct' and variant == 'B':
+            # type-level helper instructions: ghosts / child_parents / where_clause duplicates and unknown dedication; child without child_parents
+            t1 = TraitInstr(Ch('t1n', ['map', 'from', 'into', 'into_existing']), 'X', tag='t1')
+            t2 = TraitInstr('map', t2ty if t2ty != 'X' else 'Y', tag='t2')
+            g1 = GhostsInstr(Ch('gs1n', ['ghosts', 'ghosts_owned']), ded=Ch('gs1d', [None, 'X', 'Z']), data=[GhostData(('n', 'gx') if shape == 'named' else ('i', 5), '__gx(@)', tag='gx')])
+            g2 = Opt(Ch('gs2p', [False, True], fork=True), GhostsInstr(Ch('gs2n', ['ghosts', 'ghosts_ref']), ded=Ch('gs2d', [None, 'X']), data=[GhostData(('n', 'gy') if shape == 'named' else ('i', 6), '__gy(@)', tag='gy')]))
+            w1 = WhereInstr('T: Clone', ded=Ch('w1d', [None, 'X', 'Z']), tag='w1')
+            w2 = Opt(Ch('w2p', [False, True], fork=True), WhereInstr('T: Copy', ded=Ch('w2d', [None, 'X']), tag='w2'))
+            cp1 = Opt(Ch('cp1p', [False, True], fork=True), ChildParents([([('n', 'c')], 'C', 'Unspecified')] + ([([('n', 'c')], 'C2', 'Unspecified')] if False else []), ded=Ch('cp1d', [None, 'X', 'Z'])))
+            m0 = Member(nm('a'), instrs=[Opt(Ch('chp', [False, True], fork=True), ChildInstr([('n', 'c')], ded=Ch('chd', [None, 'X', 'Z'])))])
+            return Spec('struct', shape=shape, traits=[t1, t2], members=[m0, Member(nm('b'))], type_instrs=[g1, g2, w1, w2, cp1], tys=('X', 'Y', 'Z'))
+        if item == 'struct':
+            # member-kind rules: literal / pattern / type_hint / ghosts on a field; parent duplicates; permeating repeat; tuple<->named without names
+            t1 = TraitInstr(Ch('t1n', ['map', 'from', 'into', 'into_existing', 'try_into']), 'X', err=Ch('t1e', [None, 'Er']), hint=Ch('t1h', ['Unspecified', 'Struct', 'Tuple']), quick_return=Ch('t1r', [None, '__r(@)']), tag='t1')
+            t2 = TraitInstr('map', t2ty if t2ty != 'X' else 'Y', tag='t2')
+            m0 = Member(nm('a'), instrs=[Opt(Ch('litp', [False, True], fork=True), SimpleInstr('literal', '1')), Opt(Ch('patp', [False, True], fork=True), SimpleInstr('pattern', '_')),
+                                         Opt(Ch('thp', [False, True], fork=True), SimpleInstr('type_hint', 'Struct')),
+                                         Opt(Ch('fgp', [False, True], fork=True), GhostsInstr(Ch('fgn', ['ghosts', 'ghosts_owned', 'ghosts_ref']), data=[GhostData(('n', 'q'), '1', tag='fq')]))])
+            m1 = Member(nm('b'), ty='P', instrs=[Opt(Ch('p1p', [False, True], fork=True), ParentInstr(ded=Ch('p1d', [None, 'X', 'Z']))), Opt(Ch('p2p', [False, True], fork=True), ParentInstr(ded=Ch('p2d', [None, 'X'])))],
+                        repeat=None)
+            m2 = Member(nm('c'), instrs=[Opt(Ch('m2p', [False, True], fork=True), MapInstr(Ch('m2n', ['map', 'from', 'into', 'try_into']), member=Ch('m2m', [None, ('n', 'zz')]), action=Ch('m2a', [None, '__e(~)']), tag='e'))])
+            return Spec('struct', shape=shape, traits=[t1, t2], members=[m0, m1, m2], tys=('X', 'Y', 'Z'))
+        if variant == 'A':
+            t1 = TraitInstr(Ch('t1n', ['map', 'from', 'into', 'try_map']), 'X', err=Ch('t1e', [None, 'Er']), tag='t1')
+            t2 = TraitInstr('map', 'Y', tag='t2')
+            v0 = Member('A', shape='unit', instrs=[Opt(Ch('l1p', [False, True], fork=True), SimpleInstr('literal', '1', ded=Ch('l1d', [None, 'X', 'Z']))), Opt(Ch('l2p', [False, True], fork=True), SimpleInstr('literal', '2', ded=Ch('l2d', [None, 'X']))),
+                                                   Opt(Ch('vpp', [False, True], fork=True), ParentInstr())])
+            v1 = Member('B', shape='tuple', fields=[Member(None, instrs=[Opt(Ch('fmp', [False, True], fork=True), MapInstr(Ch('fmn', ['map', 'from', 'into']), member=Ch('fmm', [None, ('n', 'fz')]), action=Ch('fma', [None, '__f(~)']), tag='f'))])],
+                        instrs=[Opt(Ch('h1p', [False, True], fork=True), SimpleInstr('type_hint', Ch('h1h', ['Struct', 'Tuple']), ded=Ch('h1d', [None, 'X', 'Z']))), Opt(Ch('h2p', [False, True], fork=True), SimpleInstr('type_hint', 'Struct'))])
+            return Spec('enum', traits=[t1, t2], members=[v0, v1], tys=('X', 'Y', 'Z'))
+        t1 = TraitInstr(Ch('t1n', ['from', 'into', 'map']), 'X', tag='t1')
+        t2 = TraitInstr('map', 'Y', tag='t2')
+        w1 = WhereInstr('T: Clone', ded=Ch('w1d', [None, 'X', 'Z']), tag='w1')
+        w2 = Opt(Ch('w2p', [False, True], fork=True), WhereInstr('T: Copy', ded=Ch('w2d', [None, 'X']), tag='w2'))
+        v0 = Member('A', shape='unit', instrs=[Opt(Ch('p1p', [False, True], fork=True), SimpleInstr('pattern', '_', ded=Ch('p1d', [None, 'X', 'Z']))), Opt(Ch('p2p', [False, True], fork=True), SimpleInstr('pattern', '1..=2', ded=Ch('p2d', [None, 'X']))),
+                                               MapInstr('map', ded=Ch('vmd', [None, 'Z']), member=('n', 'Az'), tag='vm'), GhostInstr('ghost_ref', ded=Ch('vgd', [None, 'Y', 'Z']), action='__g()', tag='vg')])
+        return Spec('enum', traits=[t1, t2], members=[v0, Member('B', shape='unit')], type_instrs=[w1, w2], tys=('X', 'Y', 'Z'))
+    return make
+
+
+FAMILIES = {'misuse': make_misuse, 'c04': make_c04, 'flat': make_flat, 'params': make_params, 'ghosts': make_ghosts, 'child': make_child, 'parent': make_parent, 'enum': make_enum}
+SHARDERS = {'misuse': misuse_shards, 'c04': c04_shards, 'flat': flat_shards, 'params': params_shards, 'ghosts': ghosts_shards, 'child': child_shards, 'parent': parent_shards, 'enum': enum_shards}
 
 
 def make(sh):
@@ -303,6 +382,6 @@ def make(sh):
 
 def all_shards(tier, seed, families=None):
     out = []
-    for f in (families or [x for x in FAMILIES if x != 'c04']):
+    for f in (families or [x for x in FAMILIES if x not in ('c04', 'misuse')]):
         out.extend(SHARDERS[f](tier, seed))
     return out
